@@ -534,6 +534,61 @@ Proof.
     eapply same_core_trans; [exact Hc2|apply same_core_sym; exact Hc1].
 Qed.
 
+(** * 4b. Histories of TPMExecute calls that all return nil, flattened *)
+
+Lemma arun_vs_run l : forall a b,
+  same_core a b -> same_core (arun a l) (run H b l) /\ ares a l = results H b l.
+Proof.
+  induction l as [|c t IH]; intros a b Hc; [split; [exact Hc|reflexivity]|].
+  cbn [arun ares run results].
+  assert (same_core (fst (apply H a c)) (fst (step H b c)) /\ snd (apply H a c) = snd (step H b c)) as [H1 H2].
+  { destruct (is_cmd c) eqn:Ec.
+    - rewrite (step_is_apply b c Ec). apply apply_same_core.
+      destruct Hc as (A & B & C). repeat split; assumption.
+    - assert (step H b c = apply H b c) as -> by (destruct c; try discriminate; reflexivity).
+      apply apply_same_core. exact Hc. }
+  rewrite H2. destruct (IH _ _ H1) as [H3 H4]. rewrite H4. split; [exact H3|reflexivity].
+Qed.
+
+Lemma Forall_app_intro {A} (P : A -> Prop) l1 l2 : Forall P l1 -> Forall P l2 -> Forall P (l1 ++ l2).
+Proof. intros H1 H2. induction H1; [exact H2|constructor; assumption]. Qed.
+
+Lemma exec_history_flat_gen ops : forall s st,
+  same_core (core s) st ->
+  forallb is_exec ops = true ->
+  Forall ok_res (xresults H s ops) ->
+  same_core (core (xrun H s ops)) (run H st (log_flat (entries_of ops))) /\
+  Forall ok_res (results H st (log_flat (entries_of ops))).
+Proof.
+  induction ops as [|o t IH]; intros s st Hc Hx Hall; [split; [exact Hc|constructor]|].
+  cbn [forallb] in Hx. apply andb_prop in Hx. destruct Hx as [Ho Ht].
+  destruct o as [x cz| | | |]; try discriminate.
+  cbn [xresults] in Hall. inversion Hall as [|? ? Hr1 Hrest]; subst.
+  unfold entries_of. cbn [flat_map entry_of]. fold (entries_of t). rewrite log_flat_app.
+  unfold log_flat at 1 3. cbn [flat_map e_cmd]. rewrite app_nil_r.
+  rewrite run_app, results_app.
+  destruct (exec_is_seq s x cz) as [Hc1 Hr]. rewrite Hr1 in Hr.
+  destruct (seq_apply H (core s) (flat x)) as [st1 r1] eqn:Es. cbn [fst snd] in *. subst r1.
+  apply seq_apply_ok_iff in Es. destruct Es as [Hok ->].
+  destruct (arun_vs_run (flat x) (core s) st Hc) as [Hc2 Hres].
+  cbn [xrun].
+  destruct (IH (fst (xstep H s (OExec x cz))) (run H st (flat x))) as [A B];
+    [eapply same_core_trans; [exact Hc1|exact Hc2]|exact Ht|exact Hrest|].
+  split; [exact A|]. apply Forall_app_intro; [rewrite <- Hres; exact Hok|exact B].
+Qed.
+
+(** a history of TPMExecute calls (single commands and Commands slices of any
+    nesting, any causes) that all return nil leaves banks, SupportedAlgos and
+    event log exactly where the value model is after the FLAT history of their
+    single commands, all of which are executed: every theorem about [run] (frame,
+    closed form of a bank, reference TPM) applies to such API-level histories *)
+Lemma exec_history_flat ops s :
+  forallb is_exec ops = true ->
+  Forall ok_res (xresults H s ops) ->
+  same_core (core (xrun H s ops)) (run H (proj s) (log_flat (entries_of ops))) /\
+  Forall ok_res (results H (proj s) (log_flat (entries_of ops))).
+Proof. apply exec_history_flat_gen. apply same_core_core_proj. Qed.
+
 Lemma core_xfresh : core xfresh = fresh.
 Proof. reflexivity. Qed.
 
